@@ -29,7 +29,7 @@ BUDGET = {"quick": 10000, "thorough": 300000}
 def _cases(draw):
     prof = dict(gen.PROFILES["broad"], p_group_logic=0.5, p_extra_cols=0.5, p_params=0.6, p_multilang=0.6, p_media=0.2,
                 settings="some", p_entities=0.2, p_trigger=0.15, p_choice_media=0.2, p_or_other=0.15, p_choice_filter=0.3,
-                extra_col_names=["parent", "e0", "kind", "extra_data"], p_hint=0.4, p_osm=0.06)
+                extra_col_names=["parent", "e0", "kind", "extra_data"], p_hint=0.4, p_osm=0.06, odd_list_names=True, max_lists=4)
     g = gen.G(draw, prof)
     form = gen.build_form(draw, prof, g=g)
     # the type dictionary's legacy entries (some carry a default hint or bind of their own)
